@@ -4,6 +4,8 @@ import (
 	"errors"
 	"net"
 	"syscall"
+
+	"github.com/lesismal/nbio/mempool"
 )
 
 // C01 — outbound stream integrity. A program of k operations (Write, Writev,
@@ -118,12 +120,17 @@ func (h *verifC01) finish() {
 	}
 }
 
+var verifC01Faults = 2
+
 func verifC01Program(typ ConnType, steps, maxLen int, sendfile bool, name string) {
-	w := verifUnitEngine(Config{})
+	// a pool with 2-byte buffers: with the cache threshold scaled to 6 the
+	// capacity of a cached buffer must be able to be smaller than what is
+	// coalesced into it (the default pool's 1024-byte buffers never are)
+	w := verifUnitEngine(Config{BodyAllocator: mempool.New(2, 1<<20)})
 	c, f := w.verifAddStream(typ)
 	w.g.OnWrittenSize(func(c *Conn, b []byte, n int) { w.written += n })
 	h := &verifC01{w: w, c: c, f: f, name: name}
-	vk.faults = 2
+	vk.faults = verifC01Faults
 	nops := 3
 	if sendfile {
 		nops = 4
@@ -191,3 +198,13 @@ func verifHarness_C01_tcp_sendfile_T() {
 }
 
 var _ = syscall.EAGAIN
+
+// three kernel faults: EAGAIN, a partial flush and EAGAIN again leave a
+// partly flushed entry at the tail of the queue for the next write
+func verifHarness_C01_tcp_three_faults() {
+	verifBound("kernel_faults", 3)
+	verifC01Faults = 3
+	verifC01Program(ConnTypeTCP, 3, 2, false, "tcp")
+	verifC01Faults = 2
+	verifAssert(false, "witness")
+}
